@@ -36,12 +36,24 @@ SameTree(P, pos, rad) == { [k \in 1 .. Len(b) |-> <<R(pos[b[k] + 1][1]), R(pos[b
 \* no two critical nodes coincide (otherwise "the same connectivity between them" cannot be read off positions)
 CriticalsDistinct(P, pos) == \A a, b \in Critical(P) : a # b => pos[a + 1] # pos[b + 1]
 
+\* ... except sibling tips: two branches that leave the same furcation (or the root) may end in tips at the same position; which end point
+\* belongs to which branch is then still determined by the branches themselves
+SiblingTips(P, a, b) == a \in Tips(P) /\ b \in Tips(P) /\ BTParent(P, a) = BTParent(P, b)
+CriticalsOK(P, pos) == \A a, b \in Critical(P) : a # b /\ pos[a + 1] = pos[b + 1] => SiblingTips(P, a, b)
+\* a tree as a set of <<chain of the branch, chain of the branch it continues>> pairs (<<>> for branches that start at the root)
+PairsOf(P, F(_)) == { <<F(b), IF b[1] = 0 THEN <<>> ELSE F(CHOOSE d \in BranchSet(P) : d[Len(d)] = b[1])>> : b \in BranchSet(P) }
+IsoPairs(P, pos, rad, sp, adjust) == LET F(b) == IsoPoints(pos, rad, b, sp, adjust) IN PairsOf(P, F)
+SamePairs(P, pos, rad) == LET F(b) == [k \in 1 .. Len(b) |-> <<R(pos[b[k] + 1][1]), R(pos[b[k] + 1][2]), R(pos[b[k] + 1][3]), R(rad[b[k] + 1])>>] IN PairsOf(P, F)
+ObsPairs(rp, pts) == LET F(b) == [k \in 1 .. Len(b) |-> pts[b[k] + 1]] IN PairsOf(rp, F)
+
 \* observed chains: each a sequence of <<x, y, z, r>> integers in units of 10^-4
 ClosePt(o, e) == \A k \in 1 .. 4 : AbsI(o[k] * e[k][2] - e[k][1] * 10000) <= 4 * e[k][2]
 CloseChain(oc, ec) == Len(oc) = Len(ec) /\ \A k \in 1 .. Len(ec) : ClosePt(oc[k], ec[k])
 ChainsMatch(obs, exp) == /\ Cardinality(obs) = Cardinality(exp)
                          /\ \A ec \in exp : \E oc \in obs : CloseChain(oc, ec)
                          /\ \A oc \in obs : \E ec \in exp : CloseChain(oc, ec)
+ClosePair(o, e) == CloseChain(o[1], e[1]) /\ ((o[2] = <<>> /\ e[2] = <<>>) \/ (o[2] # <<>> /\ e[2] # <<>> /\ CloseChain(o[2], e[2])))
+PairsMatch(obs, exp) == (\A e \in exp : \E o \in obs : ClosePair(o, e)) /\ (\A o \in obs : \E e \in exp : ClosePair(o, e))
 \* chains of an observed tree given by its parent vector and its points
 ObsChains(rp, pts) == { [k \in 1 .. Len(b) |-> pts[b[k] + 1]] : b \in BranchSet(rp) }
 =============================================================================
